@@ -312,6 +312,32 @@ func runC16(c map[string]interface{}) []Event {
 	kind, api := "", ""
 	var written []float64 // the float written for each row (to measure the difference on read)
 	row := 0
+	// attribute maps handed out by DecodeRowFields are kept together with a copy of what they held; every later decode event
+	// looks at them again: a row that was returned stays what it was, whatever is read afterwards
+	var keptMaps, keptCopies []map[string]string
+	keep := func(m map[string]string) {
+		if m == nil {
+			return
+		}
+		cp := make(map[string]string, len(m))
+		for k, v := range m {
+			cp[k] = v
+		}
+		keptMaps, keptCopies = append(keptMaps, m), append(keptCopies, cp)
+	}
+	keptChanged := func() bool {
+		for i, m := range keptMaps {
+			if len(m) != len(keptCopies[i]) {
+				return true
+			}
+			for k, v := range keptCopies[i] {
+				if w, ok := m[k]; !ok || w != v {
+					return true
+				}
+			}
+		}
+		return false
+	}
 	for _, opv := range arr(c["ops"]) {
 		op := opv.(map[string]interface{})
 		switch str(op["op"]) {
@@ -438,6 +464,12 @@ func runC16(c map[string]interface{}) []Event {
 				} else if api == "fields2" {
 					g, fields, more := dec.DecodeRowFields("Identifier", "MEASUREMENT", "name")
 					e["more"] = more
+					if keptChanged() {
+						e["err"] = "the attributes of a row returned earlier were changed by this call"
+					}
+					if more {
+						keep(fields)
+					}
 					if more {
 						if g != nil {
 							e["g"] = encGeom(g, c16CoordEnc)
@@ -480,6 +512,12 @@ func runC16(c map[string]interface{}) []Event {
 				} else {
 					g, fields, more := dec.DecodeRowFields("id", "NAME", "Value")
 					e["more"] = more
+					if keptChanged() {
+						e["err"] = "the attributes of a row returned earlier were changed by this call"
+					}
+					if more {
+						keep(fields)
+					}
 					if more {
 						if g != nil {
 							e["g"] = encGeom(g, c16CoordEnc)
